@@ -449,12 +449,45 @@ def check_sched(case):
   return r, s
 
 
+
+# ------------------------------------------------------------------ the process-wide CLI options (-v, -vv, --quiet)
+VERBOSITY_CASES = [{'verbosity': v, 'quiet': q_} for v in (0, 1, 2, 3) for q_ in (False, True)]
+
+
+def check_verbosity(case):
+  import json as _json  # pylint: disable=g-import-not-at-top
+  import os as _os  # pylint: disable=g-import-not-at-top
+  import subprocess  # pylint: disable=g-import-not-at-top
+  r = CaseResult()
+  env = dict(_os.environ, VF_VERBOSITY=str(case['verbosity']), VF_QUIET='1' if case['quiet'] else '0', PYTHONHASHSEED='0')
+  child = _os.path.join(_os.path.dirname(_os.path.abspath(__file__)), 'c19_child.py')
+  p = subprocess.run([sys.executable, child], env=env, stdout=subprocess.PIPE, stderr=subprocess.PIPE, text=True, timeout=120)
+  r.nontrivial = case['verbosity'] > 0 or case['quiet']
+  r.classes = ['cli-options', 'verbosity:%d' % case['verbosity'], 'quiet:%s' % case['quiet']]
+  last = [l for l in p.stdout.splitlines() if l.startswith('{')]
+  if p.returncode != 0 or not last:
+    raise RuntimeError('verbosity child failed: rc=%s\n%s' % (p.returncode, p.stderr[-800:]))
+  out = _json.loads(last[-1])
+  if out['outcome'] != 'PASS':
+    raise RuntimeError('verbosity child: outcome %s' % out['outcome'])
+  for kind, text in (('phase', 'phase message at level %d'), ('plug', 'plug message at level %d'), ('state', 'state message at level %d'),
+                     ('vf_probe', 'framework message at level %d')):
+    want = [[lv, text % lv] for lv in (10, 15, 20, 25, 30, 40, 50)]
+    got = [[lv, msg] for lv, k, msg in out['logs'] if k == kind and msg.startswith(text.split(' at ')[0])]
+    if got != want:
+      missing = [w for w in want if w not in got]
+      r.bad('C19/cli-options/%s' % ('message-not-recorded' if missing else 'order-or-duplicate'),
+            'verbosity=%d quiet=%s: %s logger: recorded %r, emitted %r' % (case['verbosity'], case['quiet'], kind, got, want))
+  return r
+
+
 def plan(tier, seed):
   q = tier == 'quick'
   jobs = []
   for n, k, bound, nsh in ([(2, 1, 2, 8), (2, 2, 1, 1), (3, 1, 1, 1)] if q else [(2, 1, 2, 8), (2, 2, 2, 16), (3, 1, 2, 16), (3, 2, 1, 1)]):
     for sh in range(nsh):
       jobs.append({'kind': 'sched', 'name': 'sched.%d.%d.%d' % (n, k, sh), 'slots': n, 'msgs': k, 'bound': bound, 'shard': sh, 'nshards': nsh})
+  jobs.append({'kind': 'verbosity', 'name': 'verbosity'})
   for i in range(8):
     jobs.append({'kind': 'hist', 'name': 'hist%d' % i, 'hseed': seed * 1000 + i, 'n': 500 if q else 12000})
   for i in range(8):
@@ -467,6 +500,13 @@ def run_job(job, acct):
   if job['kind'] == '_regress':
     from vf import runner  # pylint: disable=g-import-not-at-top
     runner.run_regress(sys.modules[__name__], job, acct)
+  elif job['kind'] == 'verbosity':
+    for case in VERBOSITY_CASES:
+      r = check_verbosity(case)
+      acct.case(case, r.nontrivial, r.classes)
+      for sig, detail in r.violations:
+        (acct.known if sig in known else acct.violation)(sig, case, detail)
+    acct.exhaustive_parts.append('CLI verbosity {0, 1 (-v), 2 (-vv), 3} x --quiet, each in a fresh process: every level through the four kinds of logger')
   elif job['kind'] == 'sched':
     import itertools  # pylint: disable=g-import-not-at-top
     base = {'slots': job['slots'], 'msgs': job['msgs'], 'plan': {}}
@@ -494,6 +534,8 @@ def run_job(job, acct):
 
 
 def replay(case):
+  if 'verbosity' in case:
+    return check_verbosity(case).violations
   if 'slots' in case:
     return check_sched(case)[0].violations
   if 'ops' in case:
